@@ -5,7 +5,10 @@ use crate::{
     semantic::{
         function,
         type_registry::TypeRegistry,
-        types::{Function, FunctionBody, ItemState, ItemStateResolved, Type, Visibility},
+        types::{
+            Function, FunctionBody, ItemCategory, ItemDefinitionInner, ItemState, ItemStateResolved,
+            Type, Visibility,
+        },
         SemanticState,
     },
     util,
@@ -422,6 +425,47 @@ pub fn build(
 
             if !inner.defaultable() {
                 anyhow::bail!("field `{name}` of type `{resolvee_path}` is not a defaultable type");
+            }
+        }
+    }
+
+    // `Copy` and `Clone` can only be derived if every field's type supports them.
+    // Pointers and function pointers always do; extern types are taken on trust.
+    if copyable || cloneable {
+        for region in &regions {
+            fn get_item_path(type_ref: &Type) -> Option<&ItemPath> {
+                match type_ref {
+                    Type::Raw(tp) => Some(tp),
+                    Type::Array(t, _) => get_item_path(t),
+                    _ => None,
+                }
+            }
+            let Some(path) = get_item_path(&region.type_ref) else {
+                continue;
+            };
+            let Some(item) = semantic.type_registry.get(path) else {
+                continue;
+            };
+            if item.category() != ItemCategory::Defined {
+                continue;
+            }
+            let Some(resolved) = item.resolved() else {
+                continue;
+            };
+            let (field_copyable, field_cloneable) = match &resolved.inner {
+                ItemDefinitionInner::Type(td) => (td.copyable, td.cloneable),
+                ItemDefinitionInner::Enum(ed) => (ed.copyable, ed.cloneable),
+            };
+            let name = region.name.as_deref().unwrap_or("unnamed");
+            if copyable && !field_copyable {
+                anyhow::bail!(
+                    "field `{name}` of type `{resolvee_path}` is not a copyable type, but `{resolvee_path}` is marked as copyable"
+                );
+            }
+            if cloneable && !field_cloneable {
+                anyhow::bail!(
+                    "field `{name}` of type `{resolvee_path}` is not a cloneable type, but `{resolvee_path}` is marked as cloneable"
+                );
             }
         }
     }
